@@ -59,6 +59,7 @@ type Frame struct {
 	Result  Value
 	EntryFull *FullSnapshot
 	Mods    []modLoc
+	CallCount map[string]int
 	RetTo   ssa.Value // call instruction in the caller that receives the result (nil for top)
 	LoopIn  map[*ssa.BasicBlock]*loopEntry
 	Spec    *FuncSpec // contract being verified for this frame (top frame) or nil when inlined
@@ -93,12 +94,13 @@ type State struct {
 	Written  map[string]bool
 	HavRepo  bool     // a havoc of repo classes happened: untouched classes are no longer the entry heap
 	HavExt   bool     // same for non-repo classes
+	HavGhost bool     // ghost state was havocked (call of repository code without contract)
 	HavPrefix []string // class prefixes havocked by loops
 	Escaped   []string // repo classes whose objects were handed to code without contract
 }
 
 func (st *State) clone() *State {
-	n := &State{PC: st.PC, Frontier: st.Frontier, HavRepo: st.HavRepo, HavExt: st.HavExt, HavPrefix: append([]string{}, st.HavPrefix...), Escaped: append([]string{}, st.Escaped...)}
+	n := &State{PC: st.PC, Frontier: st.Frontier, HavRepo: st.HavRepo, HavExt: st.HavExt, HavGhost: st.HavGhost, HavPrefix: append([]string{}, st.HavPrefix...), Escaped: append([]string{}, st.Escaped...)}
 	n.Frames = make([]*Frame, len(st.Frames))
 	for i, f := range st.Frames {
 		nf := *f
@@ -111,6 +113,12 @@ func (st *State) clone() *State {
 			nf.Cells[k] = v
 		}
 		nf.Defers = append([]deferred{}, f.Defers...)
+		if f.CallCount != nil {
+			nf.CallCount = make(map[string]int, len(f.CallCount))
+			for k, v := range f.CallCount {
+				nf.CallCount[k] = v
+			}
+		}
 		nf.LoopIn = make(map[*ssa.BasicBlock]*loopEntry, len(f.LoopIn))
 		for k, v := range f.LoopIn {
 			nf.LoopIn[k] = v
@@ -229,6 +237,9 @@ func preservedClass(class string) bool {
 func (st *State) classHavocked(class string) bool {
 	if preservedClass(class) {
 		return false
+	}
+	if isGhostClass(class) {
+		return st.HavGhost
 	}
 	if isRepoClass(class) && st.HavRepo || !isRepoClass(class) && st.HavExt {
 		return true
